@@ -242,15 +242,31 @@ func (p *peerScript) hook(c *memConn, b []byte) (int, error) {
 	return len(b), nil
 }
 
+// the application lists a client is configured with (am=<k>)
+func clientApps(k int) (sv, auth, acct, vsa []*diam.AVP) {
+	u := func(code, v uint32) *diam.AVP { return diam.NewAVP(code, 0x40, 0, datatype.Unsigned32(v)) }
+	grp := func(ms ...*diam.AVP) *diam.AVP { return diam.NewAVP(260, 0x40, 0, &diam.GroupedAVP{AVP: ms}) }
+	switch k {
+	case 1: // several vendor-specific applications of one vendor, Vendor-Id first (RFC layout), two auth applications
+		return []*diam.AVP{u(265, 10415), u(265, 13019)}, []*diam.AVP{u(258, 4), u(258, 1)}, []*diam.AVP{u(259, 3)},
+			[]*diam.AVP{grp(u(266, 10415), u(258, 16777251)), grp(u(266, 10415), u(258, 16777238)), grp(u(266, 10415), u(259, 16777251))}
+	case 2: // application id first, the same group twice, no supported-vendor list
+		return nil, []*diam.AVP{u(258, 4)}, nil,
+			[]*diam.AVP{grp(u(258, 16777251), u(266, 10415)), grp(u(258, 16777251), u(266, 10415)), grp(u(259, 3), u(266, 13019))}
+	}
+	return []*diam.AVP{u(265, 10415)}, []*diam.AVP{u(258, 4)}, []*diam.AVP{u(259, 3)}, []*diam.AVP{grp(u(266, 10415), u(258, 16777251))}
+}
+
 func newClient(machine *sm.StateMachine, r int, wd bool) *sm.Client {
+	return newClientApps(machine, r, wd, 0)
+}
+
+func newClientApps(machine *sm.StateMachine, r int, wd bool, am int) *sm.Client {
+	sv, auth, acct, vsa := clientApps(am)
 	return &sm.Client{
 		Handler: machine, MaxRetransmits: uint(r), RetransmitInterval: clientInterval,
 		EnableWatchdog: wd, WatchdogInterval: clientInterval,
-		AuthApplicationID: []*diam.AVP{diam.NewAVP(258, 0x40, 0, datatype.Unsigned32(4))},
-		AcctApplicationID: []*diam.AVP{diam.NewAVP(259, 0x40, 0, datatype.Unsigned32(3))},
-		VendorSpecificApplicationID: []*diam.AVP{diam.NewAVP(260, 0x40, 0, &diam.GroupedAVP{AVP: []*diam.AVP{
-			diam.NewAVP(266, 0x40, 0, datatype.Unsigned32(10415)), diam.NewAVP(258, 0x40, 0, datatype.Unsigned32(16777251))}})},
-		SupportedVendorID: []*diam.AVP{diam.NewAVP(265, 0x40, 0, datatype.Unsigned32(10415))},
+		AuthApplicationID: auth, AcctApplicationID: acct, VendorSpecificApplicationID: vsa, SupportedVendorID: sv,
 	}
 }
 
@@ -287,7 +303,11 @@ func execDial(toks []string) string {
 		}
 		hmu.Unlock()
 	})
-	cli := newClient(machine, R, false)
+	am := 0
+	if a, ok := kvGet(toks, "am"); ok {
+		am, _ = strconv.Atoi(a)
+	}
+	cli := newClientApps(machine, R, false, am)
 	// earlier connections of the same client and state machine, each from another local address,
 	// each completing its handshake: they must leave nothing behind that shows in this one
 	if prevS, ok := kvGet(toks, "prev"); ok {
@@ -645,6 +665,9 @@ func genSMClient(r *RNG, n int, op string, emit func(string)) {
 			}
 			if r.Chance(25) {
 				line += " conc=1"
+			}
+			if r.Chance(30) {
+				line += fmt.Sprintf(" am=%d", 1+r.Intn(2))
 			}
 			if !strings.Contains(line, " la=") && r.Chance(15) {
 				line += fmt.Sprintf(" la6=%d", 1+r.Intn(9))
